@@ -102,10 +102,14 @@ class LogicalType(type):  # noqa
         if isinstance(obj, LogicalType):
             return super().__instancecheck__(obj)
         if cls.combinator:
-            for arg in cls.args:
-                if isinstance(arg, type) and isinstance(obj, arg):
-                    return True
-            return False
+            hits = [isinstance(obj, arg) for arg in cls.args if isinstance(arg, type)]
+            if cls.combinator == "&":
+                return all(hits)
+            if cls.combinator == "^":
+                return hits.count(True) == 1
+            if cls.combinator == "~":
+                return not any(hits)
+            return any(hits)
         origin = getattr(cls, "__origin__", None)
         if isinstance(origin, type):
             if not isinstance(obj, origin):
